@@ -403,6 +403,11 @@ def run(ctx):
         _he = ctx.saw(_rt.fn(name="handle_event", self_adt="task::WriteTaskState"))
         uplinks.broadcast_visits_every_target(r, ctx, _rt, _he)
 
+    # WriteQueues::pop schedules the lane's events and every remote's sync queue: a sync queue that is never visited again leaves that remote's
+    # replica short of entries and without `synced` (seed C02-7: the cursor left past the end when the last queue finishes first)
+    from rules import C03 as _C03
+    ctx.borrow(_C03, {"C03.R4": ("C02.R14", "every sync queue keeps being served: after a finished queue is removed the cursor stays inside the vector (C03.R4)")})
+
 
 
 
